@@ -3,7 +3,8 @@ import os
 import sys
 
 sys.path.insert(0, "/verif/lib")
-sys.path.insert(0, "/repo")
+import paths  # noqa: E402
+sys.path.insert(0, paths.REPO)
 os.chdir("/verif")
 
 import framework  # noqa: E402
